@@ -1,1 +1,152 @@
-//! (filled in below)
+//! C03 units: support / no-panic postconditions of `sample` for EVERY RNG word (a strict superset of the property's
+//! "one adversarial word" quantifier), parameters symbolic inside the envelope E (DESIGN.md section 4).
+//! Draw order (documented for counterexample decoding): parameters in constructor order, then the RNG words.
+use super::lc;
+use super::rd;
+use super::rngs::WordsRng;
+use super::spec;
+use rd::Distribution;
+
+macro_rules! env {
+    // envelope E: location-like |v| <= LOC, scale-like in [SMIN, SMAX], tail index in [TMIN, 1e3]
+    (f64) => { (1e100f64, 1e-100f64, 1e100f64, 0.1f64) };
+    (f32) => { (1e15f32, 1e-15f32, 1e15f32, 0.5f32) };
+}
+
+macro_rules! one_draw_units {
+    ($F:tt, $cauchy:ident, $pareto:ident, $weibull:ident, $gumbel:ident, $frechet:ident, $triangular:ident, $x_is_one:expr) => {
+        /// Cauchy: one word, never NaN (finiteness would need a magnitude bound on tan, which the assumed contract does not give)
+        #[kani::proof]
+        #[kani::stub(libm::tan, lc::tan)]
+        #[kani::stub(libm::tanf, lc::tanf)]
+        fn $cauchy() {
+            let (loc_max, smin, smax, _t) = env!($F);
+            let median: $F = kani::any(); let scale: $F = kani::any();
+            kani::assume(median.abs() <= loc_max && scale >= smin && scale <= smax);
+            let d = rd::Cauchy::<$F>::new(median, scale).unwrap();
+            let mut rng = WordsRng::<2>::any();
+            let x: $F = d.sample(&mut rng);
+            assert!(!x.is_nan(), "Cauchy sample is NaN");
+            kani::cover!(rng.i == 1, "sample returns inside the envelope");
+            assert!(rng.i == 1, "Cauchy consumes exactly one word");
+        }
+
+        /// Pareto: x >= scale, never NaN
+        #[kani::proof]
+        #[kani::stub(libm::pow, lc::pow)]
+        #[kani::stub(libm::powf, lc::powf)]
+        fn $pareto() {
+            let (_l, smin, smax, tmin) = env!($F);
+            let scale: $F = kani::any(); let shape: $F = kani::any();
+            kani::assume(scale >= smin && scale <= smax && shape >= tmin && shape <= 1e3);
+            let d = rd::Pareto::<$F>::new(scale, shape).unwrap();
+            let mut rng = WordsRng::<2>::any();
+            let x: $F = d.sample(&mut rng);
+            assert!(!x.is_nan(), "Pareto sample is NaN");
+            assert!(x >= scale, "Pareto sample below scale");
+            kani::cover!(rng.i == 1, "sample returns inside the envelope");
+            assert!(rng.i == 1, "Pareto consumes exactly one word");
+        }
+
+        /// Weibull: x >= 0, never NaN
+        #[kani::proof]
+        #[kani::stub(libm::pow, lc::pow)]
+        #[kani::stub(libm::powf, lc::powf)]
+        #[kani::stub(libm::log, lc::log)]
+        #[kani::stub(libm::logf, lc::logf)]
+        fn $weibull() {
+            let (_l, smin, smax, tmin) = env!($F);
+            let scale: $F = kani::any(); let shape: $F = kani::any();
+            kani::assume(scale >= smin && scale <= smax && shape >= tmin && shape <= 1e3);
+            let d = rd::Weibull::<$F>::new(scale, shape).unwrap();
+            let mut rng = WordsRng::<2>::any();
+            let x: $F = d.sample(&mut rng);
+            assert!(!x.is_nan(), "Weibull sample is NaN");
+            assert!(x >= 0.0, "Weibull sample negative");
+            kani::cover!(rng.i == 1, "sample returns inside the envelope");
+            assert!(rng.i == 1, "Weibull consumes exactly one word");
+        }
+
+        /// Gumbel: finite. The word making the uniform draw exactly 1 is a KNOWN FINDING (+inf) pinned by its own harness
+        /// and excluded here, so that any OTHER word producing a non-finite value is still reported.
+        #[kani::proof]
+        #[kani::stub(libm::log, lc::log)]
+        #[kani::stub(libm::logf, lc::logf)]
+        fn $gumbel() {
+            let (loc_max, smin, smax, _t) = env!($F);
+            let location: $F = kani::any(); let scale: $F = kani::any();
+            kani::assume(location.abs() <= loc_max && scale >= smin && scale <= smax);
+            let d = rd::Gumbel::<$F>::new(location, scale).unwrap();
+            let mut rng = WordsRng::<2>::any();
+            let is_one: fn(u64) -> bool = $x_is_one;
+            kani::assume(!is_one(rng.w[0]));
+            let x: $F = d.sample(&mut rng);
+            assert!(x.is_finite(), "Gumbel sample not finite");
+            kani::cover!(rng.i == 1, "sample returns inside the envelope");
+            assert!(rng.i == 1, "Gumbel consumes exactly one word");
+        }
+
+        /// Frechet: x >= location, never NaN; known finding (uniform draw exactly 1 -> -inf / +inf) excluded as for Gumbel.
+        #[kani::proof]
+        #[kani::stub(libm::pow, lc::pow)]
+        #[kani::stub(libm::powf, lc::powf)]
+        #[kani::stub(libm::log, lc::log)]
+        #[kani::stub(libm::logf, lc::logf)]
+        fn $frechet() {
+            let (loc_max, smin, smax, tmin) = env!($F);
+            let location: $F = kani::any(); let scale: $F = kani::any(); let shape: $F = kani::any();
+            kani::assume(location.abs() <= loc_max && scale >= smin && scale <= smax && shape >= tmin && shape <= 1e3);
+            let d = rd::Frechet::<$F>::new(location, scale, shape).unwrap();
+            let mut rng = WordsRng::<2>::any();
+            let is_one: fn(u64) -> bool = $x_is_one;
+            kani::assume(!is_one(rng.w[0]));
+            let x: $F = d.sample(&mut rng);
+            assert!(!x.is_nan(), "Frechet sample is NaN");
+            assert!(x >= location, "Frechet sample below location");
+            kani::cover!(rng.i == 1, "sample returns inside the envelope");
+            assert!(rng.i == 1, "Frechet consumes exactly one word");
+        }
+
+        /// Triangular: never NaN (both square-root arguments are non-negative), one word
+        #[kani::proof]
+        #[kani::stub(libm::sqrt, lc::sqrt_c)]
+        #[kani::stub(libm::sqrtf, lc::sqrtf_c)]
+        fn $triangular() {
+            let (loc_max, _smin, _smax, _t) = env!($F);
+            let min: $F = kani::any(); let max: $F = kani::any(); let mode: $F = kani::any();
+            kani::assume(min.abs() <= loc_max && max.abs() <= loc_max && min <= mode && mode <= max);
+            let d = rd::Triangular::<$F>::new(min, max, mode).unwrap();
+            let mut rng = WordsRng::<2>::any();
+            let x: $F = d.sample(&mut rng);
+            assert!(!x.is_nan(), "Triangular sample is NaN");
+            kani::cover!(rng.i == 1, "sample returns inside the envelope");
+            assert!(rng.i == 1, "Triangular consumes exactly one word");
+        }
+    };
+}
+one_draw_units!(f64, c03_cauchy_f64, c03_pareto_f64, c03_weibull_f64, c03_gumbel_f64, c03_frechet_f64, c03_triangular_f64,
+                |w: u64| (w >> 11) == (1u64 << 53) - 1);
+one_draw_units!(f32, c03_cauchy_f32, c03_pareto_f32, c03_weibull_f32, c03_gumbel_f32, c03_frechet_f32, c03_triangular_f32,
+                |w: u64| ((w as u32) >> 8) == (1u32 << 24) - 1);
+
+// ---------------------------------------------------------------- pinned known findings (expected to FAIL)
+/// KNOWN FINDING: Gumbel returns +inf when the uniform draw is exactly 1 (all-ones word): -ln(1) = -0.0, ln(-0.0) = -inf
+#[kani::proof]
+#[kani::stub(libm::log, lc::log)]
+fn kf_gumbel_inf_f64() {
+    let d = rd::Gumbel::<f64>::new(0.0, 1.0).unwrap();
+    let mut rng = WordsRng::<2>::of([u64::MAX, 0]);
+    let x: f64 = d.sample(&mut rng);
+    assert!(x.is_finite(), "Gumbel sample not finite");
+}
+
+/// KNOWN FINDING: Frechet(0, 1, 1) returns -inf (below its location) at the all-ones word: pow(-0.0, -1) = -inf
+#[kani::proof]
+#[kani::stub(libm::log, lc::log)]
+#[kani::stub(libm::pow, lc::pow)]
+fn kf_frechet_neg_inf_f64() {
+    let d = rd::Frechet::<f64>::new(0.0, 1.0, 1.0).unwrap();
+    let mut rng = WordsRng::<2>::of([u64::MAX, 0]);
+    let x: f64 = d.sample(&mut rng);
+    assert!(x >= 0.0, "Frechet sample below location");
+}
